@@ -8,6 +8,7 @@
 From Coq Require Import String.
 From Coq Require Import List Ascii ZArith Bool Lia.
 From CGV Require Import Base.PyBase Base.PyVal Base.NxGraph Resolve.Bonding Resolve.GraphOps Resolve.Pipeline.
+From CGV Require Export Dialect.DriverModel.
 From CGV Require Import Dialect.DialectImpl Frag.NDict Frag.StripImpl Frag.FragText Dialect.FragAnnot Dialect.ResolveFaults.
 Import ListNotations.
 
@@ -65,9 +66,7 @@ Section Driver.
   Variable read_cgsmiles : pystr -> res graph.
   Variable read_fragments : pystr -> bool -> res fragdict.
 
-  (** MoleculeResolver.from_string(s, last_all_atom, legacy).resolve_all() *)
-  Definition drive (s : pystr) (laa legacy : bool) (trs : list transcript) : res (rstate * (graph * fgraphs * graph)) :=
-    st <- from_string read_cgsmiles read_fragments s laa legacy ;; resolve_all st trs.
+  Notation drive := (DriverModel.drive read_cgsmiles read_fragments).
 
   Theorem driver_base_error s laa legacy trs e0 rest e :
     find_blocks s = e0 :: rest -> read_cgsmiles e0 = Err e -> drive s laa legacy trs = Err e.
@@ -160,9 +159,7 @@ Section Fragments.
   Variable fo : float_oracle.
   Variable mk : bool -> pystr -> result -> res graph.
   Variable add : pystr -> graph -> fragdict -> fragdict.
-  Definition read_fragments_with (block : pystr) (aa : bool) : res fragdict :=
-    fold_res (fun fd nt => r <- strip_bonding_descriptors fo (snd nt) ;; g <- mk aa (fst nt) r ;; Ok (add (fst nt) g fd))
-             (fragment_split block) [].
+  Notation read_fragments_with := (DriverModel.read_fragments_with fo mk add).
 
   Lemma fragments_fold_error aa nt post e : forall pre fd,
     Forall (fun y => exists r g, strip_bonding_descriptors fo (snd y) = Ok r /\ mk aa (fst y) r = Ok g) pre ->
